@@ -19,6 +19,10 @@ static const bool SAN = true;
 static const bool SAN = false;
 #endif
 static const uint64_t CANARY = 0xCA11AB1ECA11AB1Eull;
+// ---- the scalar permutation called DURING STATIC INITIALISATION (this translation unit is first on the link line); the vector back ends are not
+// probed here: their constants are namespace-scope objects of every translation unit by design
+struct EarlyPerm { uint64_t out[2][12]; EarlyPerm() { for (int s = 0; s < 2; s++) { E in[12], o[12]; for (int i = 0; i < 12; i++) in[i].fe = s ? 0xFFFFFFFF00000000ull + 17 * i : (uint64_t)i; PoseidonGoldilocks::hash_full_result_seq(o, in); for (int i = 0; i < 12; i++) out[s][i] = o[i].fe % PR; } } };
+static EarlyPerm g_early_perm;
 
 // exact-size heap block of n elements; in non-sanitizer builds followed by `guard` canary elements
 struct Block {
@@ -178,6 +182,9 @@ static bool body_kat(const Case &c, Ctx &ctx)
 {
     ctx.nt("kat");
     if (c.v[0] == 0) {
+        for (int s = 0; s < 2; s++) { uint64_t in[12], w[12]; for (int i = 0; i < 12; i++) in[i] = s ? 0xFFFFFFFF00000000ull + 17 * i : (uint64_t)i; refp::perm(w, in);
+            for (int i = 0; i < 12; i++) if (g_early_perm.out[s][i] != w[i]) return ctx.fail("hash_full_result_seq called during static initialisation (before main) returned element " + std::to_string(i) + " = " + hx(g_early_perm.out[s][i]) + ", want " + hx(w[i])); }
+        ctx.cls("context:scalar-permutation-called-during-static-initialisation");
         uint64_t in[12], out[12]; for (int i = 0; i < 12; i++) in[i] = i; // fibonacci-free simple vector
         // tests.cpp poseidon_full_seq: input fibonacci 0,1,1,2,3,...
         uint64_t f[12]; f[0] = 0; f[1] = 1; for (int i = 2; i < 12; i++) f[i] = f[i - 1] + f[i - 2];
@@ -340,11 +347,16 @@ static bool body_merkle(const Case &c, Ctx &ctx)
 #endif
     }
     };
+    // payload[7] bits 1-2 == 1: the application has called omp_set_num_threads(k) (k from bits 3-5) before the call
+    const bool appthreads = c.v.size() > 7 && ((c.v[7] >> 1) & 3) == 1;
+    const int saved_threads = omp_get_max_threads();
+    if (appthreads) { omp_set_num_threads(1 + (int)((c.v[7] >> 3) % 7)); ctx.nt("mt:application-called-omp_set_num_threads-before"); }
     if (!nested) build();
     else {
 #pragma omp parallel num_threads(2)
         { if (omp_get_thread_num() == 0) build(); }
     }
+    if (appthreads) omp_set_num_threads(saved_threads);
     // reference
     std::vector<uint64_t> leaves(rows * 4);
     for (uint64_t r = 0; r < rows; r++) {
@@ -371,7 +383,7 @@ static bool body_merkle(const Case &c, Ctx &ctx)
 }
 static std::string desc_merkle(const Case &c)
 {
-    return c.prop + " " + VN[c.v[0] % NVAR] + " rows=2^" + std::to_string(c.v[1]) + " cols=" + std::to_string(c.v[2]) + " dim=" + std::to_string(c.v[3]) + " batch=" + std::to_string(c.v[4]) + " nThreads=" + std::to_string(c.v[5]) + " seed=" + hx(c.v[6]) + (c.v.size() > 7 && (c.v[7] & 1) ? " [called inside a parallel region]" : "");
+    return c.prop + " " + VN[c.v[0] % NVAR] + " rows=2^" + std::to_string(c.v[1]) + " cols=" + std::to_string(c.v[2]) + " dim=" + std::to_string(c.v[3]) + " batch=" + std::to_string(c.v[4]) + " nThreads=" + std::to_string(c.v[5]) + " seed=" + hx(c.v[6]) + (c.v.size() > 7 && (c.v[7] & 1) ? " [called inside a parallel region]" : "") + (c.v.size() > 7 && ((c.v[7] >> 1) & 3) == 1 ? " [app omp_set_num_threads(" + std::to_string(1 + (c.v[7] >> 3) % 7) + ")]" : "");
 }
 
 static int g_level = 0;
@@ -403,6 +415,13 @@ int main(int argc, char **argv)
     for (int i = 1; i + 1 < argc; i++) if (std::string(argv[i]) == "--level") g_level = atoi(argv[i + 1]);
     std::vector<pbt::PropDef> props;
     props.push_back({"c06.perm", [] { return rc::gen::map(rc::gen::pair(rc::gen::weightedOneOf<std::vector<uint64_t>>({{6, g::fe_vec(24)},
+                                         // relations among the three 4-element blocks of ONE state: block sums that vanish modulo 2^64 or modulo p although the state is not zero,
+                                         // equal blocks, one block the negation of another (what a whole-register test on a sum / xor of the blocks would confuse with zero)
+                                         {2, rc::gen::apply([](std::vector<uint64_t> v, uint64_t m) { for (int s = 0; s < 2; s++) { uint64_t *q = &v[12 * s]; int rel = (int)((m >> (8 * s)) % 6);
+                                                 for (int j = 0; j < 4; j++) { if (((m >> (16 + 4 * s + j)) & 1) && rel < 2) continue; // (some columns only)
+                                                     switch (rel) { case 0: case 1: q[8 + j] = (uint64_t)0 - (q[j] + q[4 + j]); break; case 2: q[8 + j] = ref::sub(0, ref::add(q[j], q[4 + j])); break;
+                                                                    case 3: q[4 + j] = q[j]; q[8 + j] = q[j]; break; case 4: q[4 + j] = (uint64_t)0 - q[j]; q[8 + j] = 0; break; default: q[4 + j] = q[j] ^ q[8 + j]; break; } } }
+                                                 return v; }, g::fe_vec(24), g::uni64())},
                                          // the two states of a pair are RELATED: identical, or differing only in the capacity part / only in the rate part / in one element
                                          {2, rc::gen::apply([](std::vector<uint64_t> v, uint64_t m) { int rel = (int)(m % 5); int one = (int)((m >> 8) % 12);
                                                  for (int i = 0; i < 12; i++) { bool keep = rel == 0 || (rel == 1 && i < 8) || (rel == 2 && i >= 8) || (rel == 3 && i != one) || (rel == 4 && i >= 4); if (keep) v[12 + i] = v[i]; else if (v[12 + i] == v[i]) v[12 + i] ^= 1; }
@@ -431,6 +450,15 @@ int main(int argc, char **argv)
                                                            {1, rc::gen::apply([](int k, int d) { return (uint64_t)((1ll << k) + d); }, g::irange(9, 16), g::irange(-9, 9))}}), g::uni64(), rc::gen::container<std::vector<uint64_t>>(g::fe())); }, body_linear_hash, 1, false, desc_lh, 40});
     { pbt::PropDef p{"c08.enum", [] { return rc::gen::just(std::vector<uint64_t>{0, 0, 0, 1, 1, 0, 0}); }, body_merkle, 0, true, desc_merkle, 100};
       p.enum_count = [] { return (uint64_t)merkle_space().size(); }; p.enum_at = [](uint64_t i) { return merkle_space()[i]; }; props.push_back(p); }
+    // several builds one after the other in ONE process and thread (each case of c08.random runs in a fresh child): scratch storage that a builder
+    // keeps between calls must not carry anything from a larger / smaller earlier tree into the next one
+    props.push_back({"c08.sequence", [] { return rc::gen::exec([] { std::vector<uint64_t> out; int n = *g::irange(2, 3); int v = *g::irange(0, NVAR - 1);
+                         for (int i = 0; i < n; i++) { int lr = *g::irange(0, 4); uint64_t cols = *g::range(0, 60); uint64_t dim = (uint64_t)*g::irange(1, 3); uint64_t batch = *g::range(1, 9);
+                             if (*g::irange(0, 3) == 0) v = *g::irange(0, NVAR - 1); // mostly the same builder again
+                             std::vector<uint64_t> one{(uint64_t)v, (uint64_t)lr, cols, dim, batch, (uint64_t)*rc::gen::elementOf(std::vector<int>{0, 1, 2, 3}), *g::uni64(), 0}; out.insert(out.end(), one.begin(), one.end()); }
+                         return out; }); },
+                     [](const Case &c, Ctx &ctx) -> bool { ctx.nt("mt:several-builds-in-one-process"); for (size_t o = 0; o + 8 <= c.v.size(); o += 8) { Case s; s.prop = c.prop; s.v.assign(c.v.begin() + o, c.v.begin() + o + 8); Ctx local; if (!body_merkle(s, local)) return ctx.fail("build #" + std::to_string(o / 8) + " of a sequence in one process: " + desc_merkle(s) + " :: " + local.why); } return true; },
+                     0.5, true, nullptr, 100});
     props.push_back({"c08.random", [] { return rc::gen::exec([] {
                          // mostly small trees, regularly medium ones, now and then TALL ones (2^11..2^16 rows, narrow) -- every height occurs
                          int v = *g::irange(0, NVAR - 1); int lr = *rc::gen::weightedOneOf<int>({{50, g::irange(0, 5)}, {10, g::irange(6, g_level >= 1 ? 10 : 8)}, {2, g::irange(9, 16)}});
@@ -440,7 +468,8 @@ int main(int argc, char **argv)
                          uint64_t dim = (uint64_t)*g::irange(1, 3);
                          uint64_t batch = *rc::gen::weightedOneOf<uint64_t>({{5, g::range(1, cols + 3)}, {1, rc::gen::just<uint64_t>(1ull << 20)}, {1, g::range(1, 1ull << 40)}});
                          int nth = *rc::gen::elementOf(std::vector<int>{0, 1, 2, 3, 5, 16, 33});
-                         return std::vector<uint64_t>{(uint64_t)v, (uint64_t)lr, cols, dim, batch, (uint64_t)nth, *g::uni64(), (uint64_t)*rc::gen::weightedElement<int>({{4, 0}, {1, 1}})}; }); }, body_merkle, 1, true, desc_merkle, 100});
+                         return std::vector<uint64_t>{(uint64_t)v, (uint64_t)lr, cols, dim, batch, (uint64_t)nth, *g::uni64(), (uint64_t)(*rc::gen::weightedElement<int>({{4, 0}, {1, 1}}) | (*g::irange(0, 3) << 1) | (*g::irange(0, 7) << 3))}; }); }, body_merkle, 1, true, desc_merkle, 100});
+    for (auto &p : props) if (p.name == "c06.perm" || p.name == "c06.backsolved" || p.name == "c06.partial" || p.name == "c07.random" || p.name == "c08.random") p.mt_ok = true;
     return pbt::harness_main(argc, argv, "h_poseidon", props);
 }
 #endif // PBT_NO_MAIN
